@@ -19,7 +19,7 @@ MANIFEST = {
     'technique': 'exhaustive enumeration of all short lists over a small '
                  'value domain; every statistic compared with an exact '
                  'rational (Fraction) computation',
-    'text': 'Every list of length 1..4 (quick) / 1..6 (thorough) over '
+    'text': 'Every list of length 1..5 (quick) / 1..7 (thorough) over '
             '{-1,0,2,3,0.1,0.5,2.5,None,<missing>} and every list of length '
             '1..4/1..6 over {a,b,c,None}, as objects and as mappings, is '
             'rendered through dtml-in on the real code; count, total, min, '
@@ -31,7 +31,7 @@ MANIFEST = {
             'standard deviation whose true value is 0, because sqrt '
             'amplifies rounding).',
 }
-RULE = ('all lists of length 1..4 (quick) / 1..6 (thorough) over the numeric '
+RULE = ('all lists of length 1..5 (quick) / 1..7 (thorough) over the numeric '
         'domain {-1, 0, 2, 3, 0.1, 0.5, 2.5, None, attribute-missing} and '
         'over the text domain {a, b, c, None}; each as objects and as '
         'mappings; the ten statistics printed on the last element.  A list '
@@ -80,7 +80,7 @@ def build(values, mapping):
 
 
 def cases(tier):
-    maxn = 4 if tier == 'quick' else 6
+    maxn = 5 if tier == 'quick' else 7
     for dom, alpha in (('num', NUM), ('txt', TXT)):
         for n in range(1, maxn + 1):
             if n <= 2:
